@@ -454,7 +454,11 @@ func ruleC16Readlink(c *Checker) {
 			if hit && at != nil {
 				pos = p.Pos(at.Pos())
 			}
-			c.check(!hit, R, p.FuncName(fn), "Readlink target", pos, detail, "a possibly-relative link target reaches a filesystem call / filepath.Abs without being joined onto the link's directory: it is resolved against the working directory")
+			keyFn := p.FuncName(fn)
+			if p.family(pack)[fn] {
+				keyFn = p.FuncName(pack) // a private helper of Pack: the finding is Pack's
+			}
+			c.check(!hit, R, keyFn, "Readlink target", pos, detail, "a possibly-relative link target reaches a filesystem call / filepath.Abs without being joined onto the link's directory: it is resolved against the working directory")
 		}
 	}
 }
